@@ -150,7 +150,9 @@ def act_scn(a):
 
 def scn_text(root, reporter, mode, log):
     out = ["reporter " + reporter, "log " + log]
-    if mode not in ("forked", "inproc"):
+    if mode == "twice":
+        out.append("run twice")
+    elif mode not in ("forked", "inproc"):
         out.append("run single t%d" % mode[1])
     else:
         out.append("run suite")
